@@ -1,7 +1,7 @@
 use crate::ir::*;
 use crate::map::IdHashSet;
 use crate::{ConstExpr, Data, DataId, DataKind, Element, ExportItem, Function};
-use crate::{ElementId, ElementItems, ElementKind, Module, RefType, Type, TypeId};
+use crate::{ElementId, ElementItems, ElementKind, Module, Type, TypeId};
 use crate::{FunctionId, FunctionKind, Global, GlobalId};
 use crate::{GlobalKind, Memory, MemoryId, Table, TableId};
 
@@ -215,7 +215,7 @@ impl Used {
                         stack.push_func(*f);
                     });
                 }
-                if let ElementItems::Expressions(RefType::Funcref, items) = &e.items {
+                if let ElementItems::Expressions(_, items) = &e.items {
                     for item in items {
                         match item {
                             ConstExpr::Global(g) => {
